@@ -1,7 +1,7 @@
 #!/bin/bash
 # usage: tools/try_mutant.sh <patch.diff> <prop> [<prop>...]   (applies to /repo, runs quick checks, restores)
 set -u
-P=$1; shift
+P=$(readlink -f "$1"); shift
 cd /repo || exit 2
 git diff --quiet || { echo "/repo is dirty"; exit 2; }
 git apply "$P" || { echo "patch does not apply"; exit 2; }
